@@ -50,6 +50,9 @@ pub enum Item {
 #[derive(Clone, Debug, Serialize, Deserialize)]
 pub struct Case {
     pub items: Vec<Item>,
+    /// where the k-th marker frame (and the item's own frame) is cut into two TCP segments (0 = written whole)
+    #[serde(default)]
+    pub cuts: Vec<u8>,
 }
 
 struct Outcome {
@@ -271,7 +274,9 @@ fn run_net(c: &Case) -> Result<Result<Outcome, String>, BedErr> {
             // synchronise: a marker through the same connection must come out at the other end
             markers += 1;
             let m = marker(markers);
-            if !p.write(&send_frame(&pid_value(&spid), &m)).await {
+            let mframe = send_frame(&pid_value(&spid), &m);
+            let cut = if c.cuts.is_empty() { 0 } else { (c.cuts[markers % c.cuts.len()] as usize * mframe.len()) >> 8 };
+            if !p.write_segmented(&mframe, &[cut]).await {
                 problems.push(("peer-write-failed".into(), format!("after item {idx} {:?}: cannot write, the node closed the connection", it)));
                 break;
             }
@@ -353,11 +358,11 @@ fn strategy() -> impl Strategy<Value = Case> {
         1 => (0u8..3, any::<u16>()).prop_map(|(to, n)| Item::Burst { to, n }),
     ];
     let fatal = prop_oneof![any::<u32>().prop_map(Item::OverLongLength), any::<u8>().prop_map(Item::CloseMidFrame), Just(Item::Close)];
-    (prop::collection::vec(item, 1..14), prop::option::weighted(0.4, fatal)).prop_map(|(mut items, f)| {
+    (prop::collection::vec(item, 1..14), prop::option::weighted(0.4, fatal), prop_oneof![2 => Just(vec![]), 3 => prop::collection::vec(prop_oneof![Just(0u8), any::<u8>()], 1..6)]).prop_map(|(mut items, f, cuts)| {
         if let Some(f) = f {
             items.push(f);
         }
-        Case { items }
+        Case { items, cuts }
     })
 }
 
